@@ -9,7 +9,7 @@ tier = 'quick'
 args = sys.argv[1:]
 if args and args[0] == '--tier':
     tier = args[1]; args = args[2:]
-sel = [m for m in ms if not args or m['id'] in args or m['prop'] in args]
+sel = [m for m in ms if not args or m['id'] in args or any(p in args for p in m['prop'].split('/'))]
 res = []
 for m in sel:
     if not m.get('passes_existing_tests', True) or m.get('equivalent'):
@@ -22,7 +22,7 @@ for m in sel:
     try:
         props = m.get('also', []) + [m['prop']]
         outs = []
-        for p in [m['prop']]:
+        for p in m['prop'].split('/'):
             t = time.time()
             r = subprocess.run([os.path.join(ROOT, 'check'), p, tier], capture_output=True, text=True, errors='replace')
             v = [l for l in r.stdout.splitlines() if l.startswith('VIOLATION')]
